@@ -520,6 +520,8 @@ func (a Action) Coq() string {
 		return "Abort " + ctlCoq(a.C)
 	case "jobdone":
 		return fmt.Sprintf("JobDone %d%%nat %s", a.Key, kit.Bool(a.Ok))
+	case "jobgone":
+		return fmt.Sprintf("JobGone %d%%nat", a.Key)
 	case "metrics":
 		return fmt.Sprintf("Metrics %d%%nat %s", a.Key, coqOptZ(a.V))
 	case "earlystop":
